@@ -12,7 +12,8 @@ META = {
                    "the satellite id is exactly 1..=64 where its bit is computed (interval under the dominating guards); each of the six rejections is "
                    "returned and decided by the enumerated idiom (duplicate: bit & mask != 0; mismatch: the two satellite accumulators differ; unrecognised "
                    "signal: to_id == None; count: cells > 64 before the first use); satellite/signal fragments sort a copy by (satellite, signal) before "
-                   "writing; decoders read the cell mask with a guarded width and rebuild ids in ascending order, cells row-major.",
+                   "writing; decoders read the cell mask with a guarded width and rebuild ids in ascending order, cells row-major."
+                   "(B-sem) the bit-exact reading of put / parse these clauses stand on (field bits MSB first at the cursor, nothing else touched) is the abstract interpretation of C07, imported and decided here too.",
     "assumptions": ["permutation invariance is decided as 'a sort with the right key dominates the writes'"],
 }
 
